@@ -54,20 +54,21 @@ ASSUMPTIONS = [
 DEEP = {
     "C01": ["CoseProofs.Deep.Chain"],
     "C02": ["CoseProofs.Deep.Tbs"],
-    "C03": ["CoseProofs.Deep.Tbs"],
-    "C04": ["CoseProofs.FactsTie"],
+    "C03": ["CoseProofs.Deep.Tbs", "CoseProofs.Deep.Tamper"],
+    "C04": ["CoseProofs.FactsTie", "CoseProofs.Deep.Tamper"],
     "C05": ["CoseProofs.Deep.Reencode", "CoseProofs.Deep.Accept", "CoseProofs.Deep.SignMsg"],
     "C06": ["CoseProofs.Deep.NoPanic"],
     "C07": ["CoseProofs.Deep.Accept"],
     "C08": ["CoseProofs.Deep.Headers"],
     "C09": ["CoseProofs.Deep.Reencode", "CoseProofs.Deep.SignMsg"],
     "C11": ["CoseProofs.Deep.SignMsg"],
-    "C10": ["CoseProofs.Deep.Tbs", "CoseProofs.FactsTie"],
+    "C10": ["CoseProofs.Deep.Tbs", "CoseProofs.FactsTie", "CoseProofs.Deep.Tamper"],
     "C12": ["CoseProofs.Deep.Keys", "CoseProofs.Deep.Chain", "CoseProofs.FactsTie"],
     "C13": ["CoseProofs.Deep.Headers", "CoseProofs.FactsTie"],
     "C14": ["CoseProofs.Deep.Keys"],
     "C15": ["CoseProofs.Deep.Keys", "CoseProofs.FactsTie"],
     "C17": ["CoseProofs.FactsTie"],
+    "C20": ["CoseProofs.Deep.Tamper"],
     "C18": ["CoseProofs.FactsTie"],
 }
 
